@@ -119,3 +119,15 @@ DET.update({
 DET.update({
  "C16-f": (False, "C16 quick: action=Import field=handed-out-claim addr=pctescape|pctverbs (the claim id handed out by MintClaimSession cannot be imported)", "ClaimSession.tla address shapes pctescape / pctverbs; the replayer imports the handed-out claim id even when its text already differs"),
 })
+# round 5 (letter f, 2026-09-23 late; partial: intake finished with ~10 minutes left, misses recorded as open)
+DET.update({
+ "C09-f": (True,  "C09 quick: action=Receive reader=parseMax st=keyedClear include=1 what=error (size-capped receiver skips the secret toggle on a keyed non-encrypting stream)", ""),
+ "C18-f": (True,  "C18 quick: check=server_accepted object=symlinkToDir role=server (os.Stat instead of os.Lstat)", ""),
+ "C20-f": (False, "C20 quick (after strengthening; see DESIGN 12.12): failure reply rendered without / with empty ErrorString", "scripted broker's failure reply is a class of renderings (reason naming the broker / empty reason / no ErrorString), selected by the salt"),
+ "C01-f": (False, "OPEN (missed by C01 quick): zero-length frame rejected on a keyed stream with crypto mode off", "needs Framing.tla stream state keyed-not-encrypting for empty messages / empty final frames"),
+ "C07-f": (False, "OPEN (missed by C07 quick): InvalidateExpired sweeps only routes of sessions it expires itself; routes orphaned by LookupNonExpired survive and a re-import of the same id revives them", "needs SessionRoutes.tla action LazyExpire (id lookup drops the entry) followed by Import of the same id under another tag"),
+ "C10-f": (False, "OPEN (missed by C10 quick): per-command config that already carries an ECDH public key keeps it, both ends derive different keys", "needs policy source hook with a previously used config (stale ECDHPublicKey) in Negotiation replay"),
+ "C14-f": (False, "OPEN (missed by C14 quick): PutDouble floors the scaled fraction, negative non-integral doubles are one off", "needs negative doubles with non-integral scaled fraction in the Layout value classes"),
+ "C15-f": (False, "OPEN (missed by C15 quick): frames of a multi-frame message assembled privately; a read deadline on a later frame leaves the stream looking clean and export is allowed", "needs fault action ReadTimeout mid-message before Export in StreamEndpoint"),
+ "C19-f": (False, "OPEN (missed by C19 quick): cancellation ignored once SetTimeout(>0) was called", "needs configuration variant SetTimeout(>0) in the Cancel shapes"),
+})
